@@ -173,7 +173,7 @@ def run(ctx, report):
     from rules import c01, c02, c05, c09, c10
     c02._own_run(ctx, Only(report, {"KEYS": "KEYS"}))
     # every record returned by an update verifies (else its encoding cannot be decoded again), under every key type's public-key reader
-    c05._own_run(ctx, Only(report, {"TS": "TS", "WRAP": "WRAP", "SIGN": "SIGN"}))
+    c05._own_run(ctx, Only(report, {"TS": "TS", "WRAP": "WRAP", "SIGN": "SIGN", "BUILD": "KEYED-BUILD"}))
     c01.pubkey_rule(ctx, Only(report, {"PUBKEY": "PUBKEY"}))
     # what build() returns must be decodable again (size), and every committed record carries the node id an independent parse computes
     c09._own_run(ctx, Only(report, {"BUILD": "SIZE-BUILD", "SIZED": "SIZED"}))
